@@ -112,6 +112,28 @@ pub fn run(f: &[&str]) -> String {
                     let y = x as f32;
                     if Value::from(y) != serde_json::to_value(y).unwrap() { diffs.push("From-f32"); }
                 }
+                // the remaining `From<..> for Value` constructors are what to_value builds from the same datum; Value::default() is Null
+                {
+                    use std::borrow::Cow;
+                    let tv = |x: &dyn Fn() -> Value, y: Result<Value, serde_json::Error>| y.map(|y| y == x()).unwrap_or(false);
+                    match v {
+                        Value::Bool(b) => { if !tv(&|| Value::from(*b), serde_json::to_value(b)) { diffs.push("From-bool"); } }
+                        Value::String(st) => {
+                            if !tv(&|| Value::from(st.clone()), serde_json::to_value(st)) || Value::from(st.as_str()) != *v
+                                || Value::from(Cow::Borrowed(st.as_str())) != *v || Value::from(Cow::<str>::Owned(st.clone())) != *v { diffs.push("From-str"); }
+                        }
+                        Value::Number(n) => { if Value::from(n.clone()) != *v || !tv(&|| Value::from(n.clone()), serde_json::to_value(n)) { diffs.push("From-Number"); } }
+                        Value::Array(a) => {
+                            if Value::from(a.clone()) != *v || Value::from(&a[..]) != *v || !tv(&|| Value::from(a.clone()), serde_json::to_value(a)) { diffs.push("From-Vec"); }
+                            if a.len() == 2 && Value::from([a[0].clone(), a[1].clone()]) != *v { diffs.push("From-array"); }
+                        }
+                        Value::Object(o) => { if Value::from(o.clone()) != *v || !tv(&|| Value::from(o.clone()), serde_json::to_value(o)) { diffs.push("From-Map"); } }
+                        Value::Null => { if Value::from(()) != *v || Value::from(None::<bool>) != *v || Value::default() != *v { diffs.push("From-unit"); } }
+                    }
+                    if Value::from(Some(v.clone())) != *v { diffs.push("From-Option"); }
+                    let dbg = format!("{:?}", v);
+                    if dbg.is_empty() || format!("{:?}", v.clone()) != dbg { diffs.push("Debug-unstable"); }
+                }
                 // non-finite floats become Null through every conversion
                 for nf in [f64::NAN, f64::INFINITY, f64::NEG_INFINITY] {
                     if Value::from(nf) != Value::Null || serde_json::to_value(nf).unwrap() != Value::Null || Value::from(nf as f32) != Value::Null
